@@ -63,6 +63,11 @@ func (e *Engine) GenUnit(fn *ssa.Function) (u *Unit) {
 		g.assumeType(name, fv.Type())
 		bindTerms = append(bindTerms, name)
 	}
+	for i, fv := range fn.FreeVars {
+		if stableCaptured(fn, i) {
+			g.protectCell(g.vals[fv], fv.Type().Underlying().(*types.Pointer).Elem(), true) // assigned once before capture: no callee can change it
+		}
+	}
 	g.findSharedCells()
 	g.declareEventVars()
 	sig := fn.Signature
@@ -696,6 +701,34 @@ func (g *vcgen) exit(fc *FuncContract, sig *types.Signature, args, binds []strin
 			}
 		}
 		g.oblige("post", clauseLabel(e, i), t, e.Src)
+	}
+	// "applies p": p was called exactly once and its results are returned; "returnsparam p": p itself is returned
+	if g.fc != nil {
+		if pn := strings.TrimSpace(g.fc.Flags["applies"]); pn != "" {
+			cn := "G.applied." + pn
+			g.stateVar(cn, "Int")
+			g.oblige("applies", pn+"/once", fmt.Sprintf("(= %s (+ %s 1))", g.get(g.st, cn), g.get(g.old0, cn)), "the function parameter "+pn+" is called exactly once on every path")
+			for i := 0; i < g.fn.Signature.Results().Len() && i < len(results); i++ {
+				rn := fmt.Sprintf("G.appres.%s.%d", pn, i)
+				if _, ok := g.varSort[rn]; ok {
+					g.oblige("applies", fmt.Sprintf("%s/result%d", pn, i), fmt.Sprintf("(= %s %s)", results[i], g.get(g.st, rn)), "the result of "+pn+" is returned unchanged")
+				} else {
+					g.oblige("applies", fmt.Sprintf("%s/result%d", pn, i), "false", "the result of "+pn+" is returned unchanged (the parameter is never called here)")
+				}
+			}
+		}
+		if pn := strings.TrimSpace(g.fc.Flags["returnsparam"]); pn != "" {
+			found := false
+			for i, prm := range g.fn.Params {
+				if prm.Name() == pn && len(results) > 0 {
+					found = true
+					g.oblige("returnsparam", pn, fmt.Sprintf("(= %s %s)", results[0], args[i]), "the function parameter "+pn+" is returned as it is")
+				}
+			}
+			if !found {
+				g.unsupported("returnsparam %s: no such parameter or no result", pn)
+			}
+		}
 	}
 	// a function that writes package variables must re-establish the package's global invariants
 	if g.storesToGlobals() {
